@@ -48,7 +48,7 @@ pub const STRINGS: &[&str] =
     &["", "a", "chat", "a\"b", "a\\b", "l1\nl2", "c\rd", "tab\there", "é\u{10000}z", "\"", "\\", "\\\"", "'", "a\u{0}b", "\u{8}\u{c}", "\"\"\"", "x\\", "\n"];
 
 pub const TAGS: &[&str] = &[
-    "en", "EN", "en-GB", "fr", "x-a-b9", "de-CH-1996", "zh-Hant", "sr-Latn-RS", "i-klingon", "es-419", "EN-us", "a", "abcdefgh-12345678", "de-DE-u-co-phonebk",
+    "en", "EN", "en-GB", "fr", "x-a-b9", "de-CH-1996", "zh-Hant", "sr-Latn-RS", "i-klingon", "es-419", "EN-us", "abcdefgh-12345678", "de-DE-u-co-phonebk",
 ];
 
 /// pieces long strings are assembled from (runs of quotes, escapes, line ends, delimiters of the surrounding syntax)
@@ -757,6 +757,67 @@ impl<'a> B<'a> {
         }
     }
 
+    /// generalized RDF (outside the property's quantifier; `TrigSerializer` accepts it in pretty mode and the
+    /// generalized TriG parser reads it back): blank nodes and literals as predicates, variables anywhere, literal
+    /// subjects, literal / variable graph names.  These reach the branches of `build_labelled` / `write_term` that
+    /// strict data never reaches (`i == 1`, `Variable`); they are compared with the model, the round trip through
+    /// the generalized parser is reported as an observation only.
+    pub fn generalized(&mut self, g: &Option<T>) {
+        self.tags.push("generalized");
+        let var = |n: &str| T::Var(n.to_string());
+        let b = self.fresh();
+        let (s, p, o) = (self.an_iri(), self.a_pred(), self.a_ground_object());
+        match self.rng.below(10) {
+            0 => {
+                // blank node as predicate, the same node also an inlinable object elsewhere
+                self.add(s.clone(), b.clone(), o, g);
+                if self.rng.chance(1, 2) {
+                    self.add(s, p, b.clone(), g);
+                    self.add(b, iri("x:q"), iri("x:o"), g);
+                }
+            }
+            1 => self.add(var("x"), p, o, g),
+            2 => self.add(s, var("p"), o, g),
+            3 => {
+                self.add(s.clone(), p.clone(), var("o"), g);
+                self.add(tr(s, p, var("o")), iri("x:q"), iri("x:r"), g);
+            }
+            4 => {
+                let l = self.a_literal();
+                self.add(l, p, o, g);
+            }
+            5 => {
+                let l = self.a_literal();
+                self.add(s, l, o, g);
+            }
+            6 => {
+                if self.trig {
+                    let l = self.a_literal();
+                    let gn = if self.rng.chance(1, 2) { l } else { var("g") };
+                    self.add(s, p, o, &Some(gn));
+                } else {
+                    self.add(var("x"), var("x"), var("x"), g);
+                }
+            }
+            7 => {
+                // a quoted triple with a blank node predicate, asserted too
+                self.add(s.clone(), b.clone(), o.clone(), g);
+                self.add(tr(s, b, o), iri("x:q"), iri("x:r"), g);
+            }
+            8 => {
+                // list whose items are variables / whose cell is a predicate elsewhere
+                let (head, cells) = self.list(2, 0, g);
+                self.add(s.clone(), p, head, g);
+                let c = cells[self.rng.below(cells.len())].clone();
+                self.add(s, c, var("v"), g);
+            }
+            _ => {
+                // quoted triple as predicate
+                self.add(s.clone(), tr(s.clone(), p, o.clone()), o, g);
+            }
+        }
+    }
+
     /// one large dataset; returns nothing, fills `self.quads`
     pub fn big(&mut self) {
         let ngraphs = if self.trig { [1, 2, 5, 8, 14][self.rng.below(5)] } else { 1 };
@@ -1016,6 +1077,43 @@ pub fn generate(ctx: &mut GenCtx) {
         let alt = ctx.rng.chance(1, 6);
         size_stats(ctx, &quads, indent, alt);
         emit_ser_api(ctx, trig, alt, pretty, indent, &pm, &quads);
+    }
+    // ---- 6. generalized RDF through the pretty TriG writer (differential with the model only)
+    generate_generalized(ctx, &pms);
+}
+
+/// section 6 of `generate`
+fn generate_generalized(ctx: &mut GenCtx, pms: &[Pm]) {
+    let n_gen = if ctx.thorough { 3000 } else { 200 };
+    for _ in 0..n_gen {
+        let trig = ctx.rng.chance(2, 3);
+        let pm = if ctx.rng.chance(1, 2) { None } else { ctx.rng.pick(pms).clone() };
+        let mut quads = {
+            let mut b = B::new(&mut ctx.rng, trig);
+            let g0 = b.a_graph();
+            b.generalized(&g0);
+            for _ in 0..b.rng.range(0, 2) {
+                let g = if b.rng.chance(2, 3) { g0.clone() } else { b.a_graph() };
+                if b.rng.chance(1, 3) {
+                    b.generalized(&g);
+                } else {
+                    b.fragment(&g);
+                }
+            }
+            b.quads
+        };
+        for k in (1..quads.len()).rev() {
+            let j = ctx.rng.below(k + 1);
+            quads.swap(k, j);
+        }
+        quads.dedup();
+        ctx.stats.bump("shape.generalized");
+        let mut line = format!("ser gtrig 1 {} {}", hex("  "), render_pm(&pm));
+        for q in &quads {
+            line.push(' ');
+            line.push_str(&q.render());
+        }
+        ctx.emit(&line);
     }
 }
 
